@@ -300,13 +300,36 @@ func (g *Gen) applyContractX(st *State, c *Contract, key string, names []string,
 			g.oblige(st, "assert", "@"+short, cl.Text, pos, t)
 		}
 	}
+	var ghostReq Expr // conjunction of the requires that mention ghost parameters
+	ghostNames := map[string]bool{}
+	for _, q := range c.Ghosts {
+		ghostNames[q.Name] = true
+	}
 	for _, cl := range c.Requires {
+		if len(ghostNames) > 0 && mentionsAny(cl.E, ghostNames) {
+			if ghostReq == nil {
+				ghostReq = cl.E
+			} else {
+				ghostReq = &EBin{Op: "&&", L: ghostReq, R: cl.E}
+			}
+			continue
+		}
 		t, err := sc.boolTerm(cl.E)
 		if err != nil {
 			g.BindErrs = append(g.BindErrs, fmt.Sprintf("call %s: requires %q: %v", short, cl.Text, err))
 			continue
 		}
 		g.oblige(st, "pre", "@"+short, "requires "+cl.Text, pos, t)
+	}
+	if ghostReq != nil {
+		// the caller must exhibit values for the ghost parameters
+		ex := &EQuant{Forall: false, Vars: c.Ghosts, Body: ghostReq}
+		t, err := sc.boolTerm(ex)
+		if err != nil {
+			g.BindErrs = append(g.BindErrs, fmt.Sprintf("call %s: ghost requires: %v", short, err))
+		} else {
+			g.oblige(st, "pre", "@"+short, "requires "+ExprString(ex), pos, t)
+		}
 	}
 	// what the callee's contract assumes about the world is assumed here as well
 	// (every assume is listed in evidence)
@@ -358,6 +381,8 @@ func (g *Gen) applyContractX(st *State, c *Contract, key string, names []string,
 	case c.Modifies == nil || c.Modifies.Star:
 		g.havocAllExcept(st, short, keep)
 	default:
+		// the callee may allocate: new references it stores are younger than the pre-state
+		g.bumpClock(st)
 		// every location of the modifies clause denotes a location of the pre-state
 		frozen := st.clone()
 		scPre := g.specCtxVars(frozen, frozen, vars)
@@ -367,7 +392,6 @@ func (g *Gen) applyContractX(st *State, c *Contract, key string, names []string,
 				g.BindErrs = append(g.BindErrs, fmt.Sprintf("call %s: modifies %s: %v", short, ExprString(m), err))
 			}
 		}
-		g.bumpClock(st)
 	}
 	if c.Preserves != nil {
 		// listed locations keep their pre-call value whatever else the callee modifies
@@ -476,7 +500,17 @@ func (g *Gen) applyContractX(st *State, c *Contract, key string, names []string,
 	sc2 := g.specCtxVars(st, pre, vars)
 	sc2.calleeKey = key
 	for _, cl := range c.Ensures {
-		t, err := sc2.boolTerm(cl.E)
+		e := cl.E
+		if len(ghostNames) > 0 && mentionsAny(e, ghostNames) {
+			// holds for every choice of the ghost parameters that meets the requires
+			// (evaluated over the pre-state)
+			body := e
+			if ghostReq != nil {
+				body = &EBin{Op: "==>", L: &EOld{X: ghostReq}, R: e}
+			}
+			e = &EQuant{Forall: true, Vars: c.Ghosts, Body: body}
+		}
+		t, err := sc2.boolTerm(e)
 		if err != nil {
 			g.BindErrs = append(g.BindErrs, fmt.Sprintf("call %s: ensures %q: %v", short, cl.Text, err))
 			continue
@@ -512,6 +546,16 @@ func (g *Gen) applyContractX(st *State, c *Contract, key string, names []string,
 
 // havocLoc gives the location denoted by a modifies entry a fresh value.
 func (g *Gen) havocLoc(st *State, sc *SCtx, m Expr) error {
+	if comps, ref, ok, err := sc.ghostLoc(m); ok {
+		if err != nil {
+			return err
+		}
+		for _, n := range comps {
+			h := g.heapGet(st, n, g.universe[n])
+			g.heapSet(st, n, g.universe[n], Store(h, ref, g.fresh("ghost", g.universe[n].Elem)))
+		}
+		return nil
+	}
 	if call, ok := m.(*ECall); ok {
 		if id, ok := call.Fun.(*EIdent); ok && id.Name == "elems" && len(call.Args) == 1 {
 			v, err := sc.eval(call.Args[0])
@@ -681,7 +725,7 @@ func (g *Gen) obligeNamed(st *State, kind string, ord int, clause string, pos to
 		if len(parts) > 1 {
 			nm = fmt.Sprintf("%s/%d", name, j)
 		}
-		o := &Obligation{Name: nm, Kind: kind, Fn: g.Key, Clause: clause, Pos: g.pos(pos), NDefs: len(g.Defs), Reach: st.Reach, Goal: p, Gen: g}
+		o := &Obligation{Name: nm, Kind: kind, Fn: g.Key, Clause: clause, Pos: g.pos(pos), NDefs: len(g.Defs), Reach: st.Reach, Goal: p, Gen: g, Block: g.effBlock()}
 		g.Obls = append(g.Obls, o)
 	}
 }
@@ -711,6 +755,16 @@ func compOfType(comp string, t types.Type) bool {
 func (g *Gen) allowSets(mods []Expr, sc *SCtx, what string) map[string][]allowedLoc {
 	allow := map[string][]allowedLoc{}
 	for _, m := range mods {
+		if comps, ref, ok, err := sc.ghostLoc(m); ok {
+			if err != nil {
+				g.BindErrs = append(g.BindErrs, fmt.Sprintf("%s %s: %v", what, ExprString(m), err))
+				continue
+			}
+			for _, n := range comps {
+				allow[n] = append(allow[n], allowedLoc{ref: ref})
+			}
+			continue
+		}
 		if id, ok := m.(*EIdent); ok && id.Name == "new" {
 			// objects allocated since the loop was entered
 			for _, n := range g.uniOrder {
